@@ -55,6 +55,7 @@ def shards(tier: str, seed: int):
     out.append(["oid2x"])
     out.append(["str"])
     out.append(["tag"])
+    out.append(["buffers"])
     for k in range(3):
         out.append(["tree", k])
     out.append(["concat"])
@@ -607,6 +608,34 @@ def run_shard(shard, tier, seed, acc) -> None:
             if got != exp or back != txt:
                 acc.violate("utf8-form.bytes", ["utf8-form", i_], {"text": txt.encode("unicode_escape").decode(), "got": got.hex(), "expected": exp.hex(), "read_back_equal": back == txt})
         acc.sample({"string": "utf8", "content_len": 65537})
+    elif kind == "buffers":
+        # the same DER decoded from every buffer type the reader accepts (bytes, bytearray, memoryviews of item format B / b / c, a ctypes
+        # array): identical values, whatever the item type of the view
+        import ctypes
+
+        data = der.enc_seq(der.tlv(2, False, 40000, b"\x01\x02"), der.enc_oid("1.2.840.113549.1.7.3"), der.enc_int(-65536), der.enc_octets(bytes(range(200))), der.tlv(1, True, 31, der.enc_int(5)))
+        def read_all(buf):
+            r = a.ASN1Reader(buf)
+            sq = r.read_sequence()
+            out = [bytes(sq.read_octet_string(_tag(a, 2, False, 40000))), sq.read_object_identifier(), sq.read_integer(), bytes(sq.read_octet_string())]
+            inner = sq.read_sequence(tag=_tag(a, 1, True, 31))
+            out.append(inner.read_integer())
+            return out
+        want = read_all(data)
+        carr = (ctypes.c_char * len(data)).from_buffer_copy(data)
+        forms = {"bytes": data, "bytearray": bytearray(data), "mv-bytes": memoryview(data), "mv-bytearray": memoryview(bytearray(data)), "mv-cast-c": memoryview(data).cast("c"),
+                 "mv-cast-b": memoryview(data).cast("b"), "ctypes-char-array": memoryview(carr), "mv-slice": memoryview(b"\x00" + data + b"\x00")[1:-1]}
+        for name, buf in forms.items():
+            acc.ev()
+            acc.nt_counted()
+            try:
+                got = read_all(buf)
+            except Exception as e:  # noqa: BLE001
+                acc.violate(f"buffers.exc.{type(e).__name__}", ["buffers", name], {"exc": repr(e)})
+                continue
+            if got != want:
+                acc.violate("buffers.value", ["buffers", name], {"got": repr(got)[:200]})
+        acc.sample({"buffer types": sorted(forms)})
     elif kind == "tag":
         n = 0
         for cls in range(4):
@@ -709,6 +738,14 @@ def replay(case, seed, acc) -> None:
         _report(acc, case_str(a, case[1], case[2], seed), case)
     elif k == "tag":
         _report(acc, case_tag(a, *case[1:]), case)
+    elif k == "buffers":
+        run_shard(["buffers"], "quick", seed, acc)
+        for kk in list(acc.violations):
+            acc.violations[kk] = [e for e in acc.violations[kk] if e["case"] == case]
+            if not acc.violations[kk]:
+                del acc.violations[kk]
+        acc.violation_count = sum(len(v) for v in acc.violations.values())
+        return
     elif k == "utf8-form":
         run_shard(["str"], "quick", seed, acc)
         for kk in list(acc.violations):
